@@ -33,6 +33,24 @@ _wb("C09", "property-based testing (rapid): generated directory contents and pro
 _wb("C10", "property-based testing (rapid): generated well-formed files through Clean; oracles: exact multiset of surviving (id, body), independent natural-order comparator, no-write (mtime), idempotence, metamorphic permutation invariance",
     "Generated-input search over files of 0-25 entries with natural-order traps, stale subsets, special body lines, two files per case, all modes x sort. Sampled; order only judged where the natural order is total.")
 
+_wb("C12", "property-based differential testing (rapid): call sequences through shared Configs (built from shared option values, with overrides, and built late) versus a fresh Config per call; plus race-detector stress of one shared Config from 2-4 goroutines",
+    "Generated-input search over option sets and sequences of the five APIs; outcomes and resulting directory trees must equal those of fresh Configs; a -race build reports data races of concurrent use. Sampled; race detection is limited to executed accesses.")
+TEXT["C12"]["engine"] = "wb+race"
+_wb("C14", "property-based testing (rapid): metamorphic relations over generated JSON trees (form, whitespace, member order), round-trip through an independent parser, and rejection of inputs that encoding/json rejects",
+    "Generated-input search over JSON documents x presentations x input forms x pretty-print options x both JSON entry points, each with an invalid sibling input. Sampled.")
+_wb("C15", "property-based testing (rapid): reference model set(tree, path, placeholder) applied left to right versus the stored document, for gjson-escaped paths and YAML paths; caller's bytes compared before/after",
+    "Generated-input search over documents, existing paths (escaped keys, array elements, nested, repeated, parent/child), multi-path Any matchers with missing paths, placeholders of every JSON type, matcher sequences, three input forms. Sampled; reported matcher errors are accepted as legal outcomes.")
+_wb("C16", "property-based metamorphic testing (rapid): D / D' (masked values changed) / D'' (uncovered value changed) through record and read-only replay in separate directories",
+    "Generated-input search over documents, non-nested masked path sets and satisfiable matchers for JSON, standalone JSON and YAML. Sampled.")
+_wb("C17", "property-based testing (rapid): generated mixes of failing and satisfiable matchers x modes; oracle: one failure naming every failing matcher, mtime-level no-write, ordinal consumption observed through later calls",
+    "Generated-input search over matcher lists (missing path, wrong type, callback error, tolerated missing path) in four modes for JSON, standalone JSON and YAML. Sampled.")
+_wb("C18", "property-based testing (rapid): grammar-generated YAML documents recorded and compared byte-for-byte with the escaped input; Go values recorded twice; invalid inputs rejected",
+    "Generated-input search over YAML streams (separators, empty documents, block scalars with terminator lines, comments, header-looking flow sequences, anchors, trailing newlines), Go maps/structs, invalid constructions. Sampled; validity split delegated to the YAML library.")
+_wb("C19", "property-based testing (rapid): four-process scenario (record / read-only replay / changed without update / update) over arbitrary byte values and -count, exact file set and bytes compared",
+    "Generated-input search over standalone values (CR, CRLF, terminator lines, NUL, invalid UTF-8, structured values, JSON trees), names/options containing '%', 1-12 calls, 1-3 executions, all modes. Sampled.")
+_wb("C20", "stateful model-based testing (rapid): C03-style histories with every outcome class, snaps.Skip* and Clean per process; plus 2-8 real goroutines; oracle: one outcome signal per call == model class, summary totals == tallies, obsolete lists == model stale set == removed items",
+    "Generated histories (sequential interleavings and real goroutines) followed by Clean in every mode; includes a file-system fault (directory that cannot be created). Sampled.")
+
 NOT_APPLICABLE = {}
 
 ENGINES = [
